@@ -259,139 +259,139 @@ fn step_body(kind: u8, phase: u8, live: bool, pend_write: bool, pend_flush: bool
     }
 }
 
-// @harness props=C01,C13,C11,C16,C10,C02,C15 tier=quick layer=L3c unwind=8
+// @harness props=C01,C13,C11,C16,C10,C02,C15 tier=quick layer=L3c unwind=8 heavy=1
 // @harness funcs="Connection::perform_outbound_step (Retained), write_current, flush_current, complete_flush, set_written, handle_disconnect; RuntimeState::note_outbound_activity (real coroutines)"
 // @harness sym="written offset, every arena byte, clock, per write: error / accepted 1..=n bytes; per flush: error / ok; after each Pending: drop (cancel) or re-poll" bounds="one step on a 4-byte retained packet; write phase, transport ready; <= 3 polls; keep-alive 60 s"
 // @harness assumes="transport contract: write never returns Ok(0) for a non-empty buffer; a pending write/flush has accepted nothing (cancel-safe I/O)"
 absout_harness!(c01_step_retained_write, 8, { step_body(g::K_RET, 0, true, false, false) });
 
-// @harness props=C01,C13,C11,C16,C10,C02,C15 tier=quick layer=L3c unwind=8
+// @harness props=C01,C13,C11,C16,C10,C02,C15 tier=quick layer=L3c unwind=8 heavy=1
 // @harness funcs="Connection::perform_outbound_step (Retained), write_current, flush_current, complete_flush, set_written, handle_disconnect; RuntimeState::note_outbound_activity (real coroutines)"
 // @harness sym="written offset, every arena byte, clock, per write: error / accepted 1..=n bytes; per flush: error / ok; after each Pending: drop (cancel) or re-poll" bounds="one step on a 4-byte retained packet; write phase, write pending once (cancel point); <= 3 polls; keep-alive 60 s"
 // @harness assumes="transport contract: write never returns Ok(0) for a non-empty buffer; a pending write/flush has accepted nothing (cancel-safe I/O)"
 absout_harness!(c01_step_retained_write_wpend, 8, { step_body(g::K_RET, 0, true, true, false) });
 
-// @harness props=C01,C13,C11,C16,C10,C02,C15 tier=quick layer=L3c unwind=8
+// @harness props=C01,C13,C11,C16,C10,C02,C15 tier=quick layer=L3c unwind=8 heavy=1
 // @harness funcs="Connection::perform_outbound_step (Retained), write_current, flush_current, complete_flush, set_written, handle_disconnect; RuntimeState::note_outbound_activity (real coroutines)"
 // @harness sym="written offset, every arena byte, clock, per write: error / accepted 1..=n bytes; per flush: error / ok; after each Pending: drop (cancel) or re-poll" bounds="one step on a 4-byte retained packet; write phase, flush pending once (cancel point after accepted bytes); <= 3 polls; keep-alive 60 s"
 // @harness assumes="transport contract: write never returns Ok(0) for a non-empty buffer; a pending write/flush has accepted nothing (cancel-safe I/O)"
 absout_harness!(c01_step_retained_write_fpend, 8, { step_body(g::K_RET, 0, true, false, true) });
 
-// @harness props=C01,C13,C11,C16,C10,C02,C15 tier=quick layer=L3c unwind=8
+// @harness props=C01,C13,C11,C16,C10,C02,C15 tier=quick layer=L3c unwind=8 heavy=1
 // @harness funcs="Connection::perform_outbound_step (Retained), write_current, flush_current, complete_flush, set_written, handle_disconnect; RuntimeState::note_outbound_activity (real coroutines)"
 // @harness sym="written offset, every arena byte, clock, per write: error / accepted 1..=n bytes; per flush: error / ok; after each Pending: drop (cancel) or re-poll" bounds="one step on a 4-byte retained packet; flush phase, transport ready; <= 3 polls; keep-alive 60 s"
 // @harness assumes="transport contract: write never returns Ok(0) for a non-empty buffer; a pending write/flush has accepted nothing (cancel-safe I/O)"
 absout_harness!(c01_step_retained_flush, 8, { step_body(g::K_RET, 1, true, false, false) });
 
-// @harness props=C01,C13,C11,C16,C10,C02,C15 tier=quick layer=L3c unwind=8
+// @harness props=C01,C13,C11,C16,C10,C02,C15 tier=quick layer=L3c unwind=8 heavy=1
 // @harness funcs="Connection::perform_outbound_step (Retained), write_current, flush_current, complete_flush, set_written, handle_disconnect; RuntimeState::note_outbound_activity (real coroutines)"
 // @harness sym="written offset, every arena byte, clock, per write: error / accepted 1..=n bytes; per flush: error / ok; after each Pending: drop (cancel) or re-poll" bounds="one step on a 4-byte retained packet; flush phase, flush pending once (cancel point); <= 3 polls; keep-alive 60 s"
 // @harness assumes="transport contract: write never returns Ok(0) for a non-empty buffer; a pending write/flush has accepted nothing (cancel-safe I/O)"
 absout_harness!(c01_step_retained_flush_fpend, 8, { step_body(g::K_RET, 1, true, false, true) });
 
-// @harness props=C01,C13,C11,C16,C10,C02,C15 tier=quick layer=L3c unwind=8
+// @harness props=C01,C13,C11,C16,C10,C02,C15 tier=quick layer=L3c unwind=8 heavy=1
 // @harness funcs="Connection::perform_outbound_step (Retained), write_current, flush_current, complete_flush, set_written, handle_disconnect; RuntimeState::note_outbound_activity (real coroutines)"
 // @harness sym="written offset, every arena byte, clock, per write: error / accepted 1..=n bytes; per flush: error / ok; after each Pending: drop (cancel) or re-poll" bounds="one step on a 4-byte retained packet; handle already dead; <= 3 polls; keep-alive 60 s"
 // @harness assumes="transport contract: write never returns Ok(0) for a non-empty buffer; a pending write/flush has accepted nothing (cancel-safe I/O)"
 absout_harness!(c01_step_retained_dead, 8, { step_body(g::K_RET, 0, false, false, false) });
 
-// @harness props=C01,C13,C11,C16,C10,C04,C14 tier=quick layer=L3c unwind=8
+// @harness props=C01,C13,C11,C16,C10,C04,C14 tier=quick layer=L3c unwind=8 heavy=1
 // @harness funcs="Connection::perform_outbound_step (Control), serialize_control_packet, encode_control_packet (real PUBACK encoder) (real coroutines)"
 // @harness sym="written offset, every arena byte, clock, per write: error / accepted 1..=n bytes; per flush: error / ok; after each Pending: drop (cancel) or re-poll" bounds="one step on PUBACK(id 7), 5 bytes; write phase, transport ready; <= 3 polls; keep-alive 60 s"
 // @harness assumes="transport contract: write never returns Ok(0) for a non-empty buffer; a pending write/flush has accepted nothing (cancel-safe I/O)"
 absout_harness!(c01_step_ack_write, 8, { step_body(g::K_ACK, 0, true, false, false) });
 
-// @harness props=C01,C13,C11,C16,C10,C04,C14 tier=thorough layer=L3c unwind=8
+// @harness props=C01,C13,C11,C16,C10,C04,C14 tier=thorough layer=L3c unwind=8 heavy=1
 // @harness funcs="Connection::perform_outbound_step (Control), serialize_control_packet, encode_control_packet (real PUBACK encoder) (real coroutines)"
 // @harness sym="written offset, every arena byte, clock, per write: error / accepted 1..=n bytes; per flush: error / ok; after each Pending: drop (cancel) or re-poll" bounds="one step on PUBACK(id 7), 5 bytes; write phase, write pending once (cancel point); <= 3 polls; keep-alive 60 s"
 // @harness assumes="transport contract: write never returns Ok(0) for a non-empty buffer; a pending write/flush has accepted nothing (cancel-safe I/O)"
 absout_harness!(c01_step_ack_write_wpend, 8, { step_body(g::K_ACK, 0, true, true, false) });
 
-// @harness props=C01,C13,C11,C16,C10,C04,C14 tier=thorough layer=L3c unwind=8
+// @harness props=C01,C13,C11,C16,C10,C04,C14 tier=thorough layer=L3c unwind=8 heavy=1
 // @harness funcs="Connection::perform_outbound_step (Control), serialize_control_packet, encode_control_packet (real PUBACK encoder) (real coroutines)"
 // @harness sym="written offset, every arena byte, clock, per write: error / accepted 1..=n bytes; per flush: error / ok; after each Pending: drop (cancel) or re-poll" bounds="one step on PUBACK(id 7), 5 bytes; write phase, flush pending once (cancel point after accepted bytes); <= 3 polls; keep-alive 60 s"
 // @harness assumes="transport contract: write never returns Ok(0) for a non-empty buffer; a pending write/flush has accepted nothing (cancel-safe I/O)"
 absout_harness!(c01_step_ack_write_fpend, 8, { step_body(g::K_ACK, 0, true, false, true) });
 
-// @harness props=C01,C13,C11,C16,C10,C04,C14 tier=thorough layer=L3c unwind=8
+// @harness props=C01,C13,C11,C16,C10,C04,C14 tier=thorough layer=L3c unwind=8 heavy=1
 // @harness funcs="Connection::perform_outbound_step (Control), serialize_control_packet, encode_control_packet (real PUBACK encoder) (real coroutines)"
 // @harness sym="written offset, every arena byte, clock, per write: error / accepted 1..=n bytes; per flush: error / ok; after each Pending: drop (cancel) or re-poll" bounds="one step on PUBACK(id 7), 5 bytes; flush phase, transport ready; <= 3 polls; keep-alive 60 s"
 // @harness assumes="transport contract: write never returns Ok(0) for a non-empty buffer; a pending write/flush has accepted nothing (cancel-safe I/O)"
 absout_harness!(c01_step_ack_flush, 8, { step_body(g::K_ACK, 1, true, false, false) });
 
-// @harness props=C01,C13,C11,C16,C10,C04,C14 tier=thorough layer=L3c unwind=8
+// @harness props=C01,C13,C11,C16,C10,C04,C14 tier=thorough layer=L3c unwind=8 heavy=1
 // @harness funcs="Connection::perform_outbound_step (Control), serialize_control_packet, encode_control_packet (real PUBACK encoder) (real coroutines)"
 // @harness sym="written offset, every arena byte, clock, per write: error / accepted 1..=n bytes; per flush: error / ok; after each Pending: drop (cancel) or re-poll" bounds="one step on PUBACK(id 7), 5 bytes; flush phase, flush pending once (cancel point); <= 3 polls; keep-alive 60 s"
 // @harness assumes="transport contract: write never returns Ok(0) for a non-empty buffer; a pending write/flush has accepted nothing (cancel-safe I/O)"
 absout_harness!(c01_step_ack_flush_fpend, 8, { step_body(g::K_ACK, 1, true, false, true) });
 
-// @harness props=C01,C13,C11,C16,C10,C04,C14 tier=quick layer=L3c unwind=8
+// @harness props=C01,C13,C11,C16,C10,C04,C14 tier=quick layer=L3c unwind=8 heavy=1
 // @harness funcs="Connection::perform_outbound_step (Control), serialize_control_packet, encode_control_packet (real PUBACK encoder) (real coroutines)"
 // @harness sym="written offset, every arena byte, clock, per write: error / accepted 1..=n bytes; per flush: error / ok; after each Pending: drop (cancel) or re-poll" bounds="one step on PUBACK(id 7), 5 bytes; handle already dead; <= 3 polls; keep-alive 60 s"
 // @harness assumes="transport contract: write never returns Ok(0) for a non-empty buffer; a pending write/flush has accepted nothing (cancel-safe I/O)"
 absout_harness!(c01_step_ack_dead, 8, { step_body(g::K_ACK, 0, false, false, false) });
 
-// @harness props=C01,C13,C10,C16 tier=quick layer=L3c unwind=8
+// @harness props=C01,C13,C10,C16 tier=quick layer=L3c unwind=8 heavy=1
 // @harness funcs="Connection::perform_outbound_step (Control PingReq), complete_flush (real coroutines)"
 // @harness sym="written offset, every arena byte, clock, per write: error / accepted 1..=n bytes; per flush: error / ok; after each Pending: drop (cancel) or re-poll" bounds="one step on PINGREQ, 2 bytes; write phase, transport ready; <= 3 polls; keep-alive 60 s"
 // @harness assumes="transport contract: write never returns Ok(0) for a non-empty buffer; a pending write/flush has accepted nothing (cancel-safe I/O)"
 absout_harness!(c01_step_ping_write, 8, { step_body(g::K_PING, 0, true, false, false) });
 
-// @harness props=C01,C13,C10,C16 tier=thorough layer=L3c unwind=8
+// @harness props=C01,C13,C10,C16 tier=thorough layer=L3c unwind=8 heavy=1
 // @harness funcs="Connection::perform_outbound_step (Control PingReq), complete_flush (real coroutines)"
 // @harness sym="written offset, every arena byte, clock, per write: error / accepted 1..=n bytes; per flush: error / ok; after each Pending: drop (cancel) or re-poll" bounds="one step on PINGREQ, 2 bytes; write phase, write pending once (cancel point); <= 3 polls; keep-alive 60 s"
 // @harness assumes="transport contract: write never returns Ok(0) for a non-empty buffer; a pending write/flush has accepted nothing (cancel-safe I/O)"
 absout_harness!(c01_step_ping_write_wpend, 8, { step_body(g::K_PING, 0, true, true, false) });
 
-// @harness props=C01,C13,C10,C16 tier=thorough layer=L3c unwind=8
+// @harness props=C01,C13,C10,C16 tier=thorough layer=L3c unwind=8 heavy=1
 // @harness funcs="Connection::perform_outbound_step (Control PingReq), complete_flush (real coroutines)"
 // @harness sym="written offset, every arena byte, clock, per write: error / accepted 1..=n bytes; per flush: error / ok; after each Pending: drop (cancel) or re-poll" bounds="one step on PINGREQ, 2 bytes; write phase, flush pending once (cancel point after accepted bytes); <= 3 polls; keep-alive 60 s"
 // @harness assumes="transport contract: write never returns Ok(0) for a non-empty buffer; a pending write/flush has accepted nothing (cancel-safe I/O)"
 absout_harness!(c01_step_ping_write_fpend, 8, { step_body(g::K_PING, 0, true, false, true) });
 
-// @harness props=C01,C13,C10,C16 tier=quick layer=L3c unwind=8
+// @harness props=C01,C13,C10,C16 tier=quick layer=L3c unwind=8 heavy=1
 // @harness funcs="Connection::perform_outbound_step (Control PingReq), complete_flush (real coroutines)"
 // @harness sym="written offset, every arena byte, clock, per write: error / accepted 1..=n bytes; per flush: error / ok; after each Pending: drop (cancel) or re-poll" bounds="one step on PINGREQ, 2 bytes; flush phase, transport ready; <= 3 polls; keep-alive 60 s"
 // @harness assumes="transport contract: write never returns Ok(0) for a non-empty buffer; a pending write/flush has accepted nothing (cancel-safe I/O)"
 absout_harness!(c01_step_ping_flush, 8, { step_body(g::K_PING, 1, true, false, false) });
 
-// @harness props=C01,C13,C10,C16 tier=thorough layer=L3c unwind=8
+// @harness props=C01,C13,C10,C16 tier=thorough layer=L3c unwind=8 heavy=1
 // @harness funcs="Connection::perform_outbound_step (Control PingReq), complete_flush (real coroutines)"
 // @harness sym="written offset, every arena byte, clock, per write: error / accepted 1..=n bytes; per flush: error / ok; after each Pending: drop (cancel) or re-poll" bounds="one step on PINGREQ, 2 bytes; flush phase, flush pending once (cancel point); <= 3 polls; keep-alive 60 s"
 // @harness assumes="transport contract: write never returns Ok(0) for a non-empty buffer; a pending write/flush has accepted nothing (cancel-safe I/O)"
 absout_harness!(c01_step_ping_flush_fpend, 8, { step_body(g::K_PING, 1, true, false, true) });
 
-// @harness props=C01,C13,C03,C16 tier=quick layer=L3c unwind=8
+// @harness props=C01,C13,C03,C16 tier=quick layer=L3c unwind=8 heavy=1
 // @harness funcs="Connection::perform_outbound_step (Release), serialize_pubrel (real coroutines)"
 // @harness sym="written offset, every arena byte, clock, per write: error / accepted 1..=n bytes; per flush: error / ok; after each Pending: drop (cancel) or re-poll" bounds="one step on PUBREL(id 9), 5 bytes; write phase, transport ready; <= 3 polls; keep-alive 60 s"
 // @harness assumes="transport contract: write never returns Ok(0) for a non-empty buffer; a pending write/flush has accepted nothing (cancel-safe I/O)"
 absout_harness!(c01_step_release_write, 8, { step_body(g::K_REL, 0, true, false, false) });
 
-// @harness props=C01,C13,C03,C16 tier=thorough layer=L3c unwind=8
+// @harness props=C01,C13,C03,C16 tier=thorough layer=L3c unwind=8 heavy=1
 // @harness funcs="Connection::perform_outbound_step (Release), serialize_pubrel (real coroutines)"
 // @harness sym="written offset, every arena byte, clock, per write: error / accepted 1..=n bytes; per flush: error / ok; after each Pending: drop (cancel) or re-poll" bounds="one step on PUBREL(id 9), 5 bytes; write phase, write pending once (cancel point); <= 3 polls; keep-alive 60 s"
 // @harness assumes="transport contract: write never returns Ok(0) for a non-empty buffer; a pending write/flush has accepted nothing (cancel-safe I/O)"
 absout_harness!(c01_step_release_write_wpend, 8, { step_body(g::K_REL, 0, true, true, false) });
 
-// @harness props=C01,C13,C03,C16 tier=thorough layer=L3c unwind=8
+// @harness props=C01,C13,C03,C16 tier=thorough layer=L3c unwind=8 heavy=1
 // @harness funcs="Connection::perform_outbound_step (Release), serialize_pubrel (real coroutines)"
 // @harness sym="written offset, every arena byte, clock, per write: error / accepted 1..=n bytes; per flush: error / ok; after each Pending: drop (cancel) or re-poll" bounds="one step on PUBREL(id 9), 5 bytes; write phase, flush pending once (cancel point after accepted bytes); <= 3 polls; keep-alive 60 s"
 // @harness assumes="transport contract: write never returns Ok(0) for a non-empty buffer; a pending write/flush has accepted nothing (cancel-safe I/O)"
 absout_harness!(c01_step_release_write_fpend, 8, { step_body(g::K_REL, 0, true, false, true) });
 
-// @harness props=C01,C13,C03,C16 tier=thorough layer=L3c unwind=8
+// @harness props=C01,C13,C03,C16 tier=thorough layer=L3c unwind=8 heavy=1
 // @harness funcs="Connection::perform_outbound_step (Release), serialize_pubrel (real coroutines)"
 // @harness sym="written offset, every arena byte, clock, per write: error / accepted 1..=n bytes; per flush: error / ok; after each Pending: drop (cancel) or re-poll" bounds="one step on PUBREL(id 9), 5 bytes; flush phase, transport ready; <= 3 polls; keep-alive 60 s"
 // @harness assumes="transport contract: write never returns Ok(0) for a non-empty buffer; a pending write/flush has accepted nothing (cancel-safe I/O)"
 absout_harness!(c01_step_release_flush, 8, { step_body(g::K_REL, 1, true, false, false) });
 
-// @harness props=C01,C13,C03,C16 tier=thorough layer=L3c unwind=8
+// @harness props=C01,C13,C03,C16 tier=thorough layer=L3c unwind=8 heavy=1
 // @harness funcs="Connection::perform_outbound_step (Release), serialize_pubrel (real coroutines)"
 // @harness sym="written offset, every arena byte, clock, per write: error / accepted 1..=n bytes; per flush: error / ok; after each Pending: drop (cancel) or re-poll" bounds="one step on PUBREL(id 9), 5 bytes; flush phase, flush pending once (cancel point); <= 3 polls; keep-alive 60 s"
 // @harness assumes="transport contract: write never returns Ok(0) for a non-empty buffer; a pending write/flush has accepted nothing (cancel-safe I/O)"
 absout_harness!(c01_step_release_flush_fpend, 8, { step_body(g::K_REL, 1, true, false, true) });
 
-// @harness props=C14,C16 tier=quick layer=L3c unwind=8
+// @harness props=C14,C16 tier=quick layer=L3c unwind=8 heavy=1
 // @harness funcs="Connection::perform_outbound_step (Retained) with a Maximum Packet Size below the packet length"
 // @harness sym="maximum packet size, written offset, arena" bounds="4-byte retained packet"
 absout_harness!(c14_replay_respects_limit, 8, {
@@ -440,7 +440,7 @@ absout_harness!(c14_replay_respects_limit, 8, {
 // ---------------------------------------------------------------------------------------------
 // A3: write_all / write_packet (direct writers: progress is recorded nowhere)
 // ---------------------------------------------------------------------------------------------
-// @harness props=C13,C01,C15 tier=quick layer=L3c
+// @harness props=C13,C01,C15 tier=quick layer=L3c heavy=1
 // @harness funcs="outbound::write_all (real coroutine)"
 // @harness sym="4 bytes, per write pending/error/accepted k, drop or re-poll" bounds="4-byte buffer, <= 6 polls"
 // @harness assumes="transport contract as c01_step_retained"
@@ -493,24 +493,24 @@ fn c13_write_all_contract() {
 // ---------------------------------------------------------------------------------------------
 // A4: fill_packet_reader / read_packet
 // ---------------------------------------------------------------------------------------------
-fn read_body(script_len: usize, cap_ok: bool, pend_read: bool) {
+fn read_body(cap_ok: bool, pend_read: bool) {
     g::reset_ghost();
     unsafe { PEND_READ = pend_read };
-    let mut rx = [0u8; 6];
+    let mut rx = [0u8; 4];
     let mut tx = [0u8; 8];
     let mut session = Session::new(ConfigBuilder::new(Buffers::new(&mut rx, &mut tx)));
     let script: [u8; 8] = kani::any();
     unsafe {
         IN = script;
-        IN_LEN = script_len;
+        IN_LEN = 4;
         IN_OFF = 0;
         IN_EOF = 0;
     }
-    // a PUBACK-sized packet: total length 2 + script[1]
+    // total packet length 2 + script[1]
     if cap_ok {
-        kani::assume(script[1] <= 4);
+        kani::assume(script[1] <= 2);
     } else {
-        kani::assume(script[1] & 0x80 == 0 && script[1] > 4);
+        kani::assume(script[1] & 0x80 == 0 && script[1] > 2);
     }
     let live: bool = kani::any();
     let mut conn = Connection { session: &mut session, io: SymIo, event: ConnectEvent::Connected, live };
@@ -519,21 +519,20 @@ fn read_body(script_len: usize, cap_ok: bool, pend_read: bool) {
     {
         let fut = conn.read_packet();
         let mut fut = core::pin::pin!(fut);
-        let mut polls = 0;
-        while polls < 9 {
-            match poll_once(fut.as_mut()) {
-                Poll::Ready(r) => {
+        match poll_once(fut.as_mut()) {
+            Poll::Ready(r) => result = Some(r),
+            Poll::Pending => {
+                assert!(pend_read && live, "harness: unexpected Pending");
+                // first read is pending: cancel here, or let it proceed (later reads are pending
+                // too; one more poll suffices to see a committed chunk followed by the next yield)
+                if kani::any() {
+                    dropped = true;
+                } else if let Poll::Ready(r) = poll_once(fut.as_mut()) {
                     result = Some(r);
-                    break;
-                }
-                Poll::Pending => {
-                    if kani::any() {
-                        dropped = true;
-                        break;
-                    }
+                } else {
+                    dropped = true;
                 }
             }
-            polls += 1;
         }
     }
     unsafe {
@@ -547,7 +546,7 @@ fn read_body(script_len: usize, cap_ok: bool, pend_read: bool) {
                 assert!(conn.session.packet_reader.packet_available(), "C15/A4: Ok means a whole packet is buffered");
                 assert!(IN_OFF == total, "C15/A4: exactly one packet was consumed from the stream");
                 let mut i = 0;
-                while i < 6 {
+                while i < 4 {
                     if i < total {
                         assert!(conn.session.packet_reader.buffer[i] == script[i], "C15/A4: the buffered packet differs from the stream");
                     }
@@ -569,30 +568,26 @@ fn read_body(script_len: usize, cap_ok: bool, pend_read: bool) {
                 }
             }
             None => {
-                if dropped {
-                    // C13: a cancelled read keeps what was committed; the next read continues
-                    assert!(conn.live == live && g::N_ARM == 0, "C13/read: cancellation is not a disconnect");
-                }
+                // C13: a cancelled read keeps what was committed; the handle stays usable
+                assert!(dropped && conn.live == live && g::N_ARM == 0, "C13/read: cancellation is not a disconnect");
+                assert!(conn.session.packet_reader.buffer[0] == script[0] || IN_OFF == 0, "C13/read: committed bytes survive cancellation");
             }
         }
         if !cap_ok && live {
             assert!(IN_OFF <= 2, "C14/read: body bytes of a packet larger than the receive buffer were requested");
+            assert!(!matches!(result, Some(Ok(()))), "C14/read: an oversize packet was accepted");
         }
     }
-    if cap_ok {
-        kani::cover!(matches!(result, Some(Ok(()))));
-    }
-    if pend_read {
-        kani::cover!(dropped);
-    }
+    kani::cover!(!cap_ok || pend_read || matches!(result, Some(Ok(()))));
+    kani::cover!(!pend_read || (dropped && unsafe { IN_OFF } >= 1), "cancelled after a chunk was committed");
 }
 
-// @harness props=C15,C11,C13,C12 tier=quick layer=L3c unwind=11
-// @harness funcs="Connection::read_packet, fill_packet_reader (real coroutines), PacketReader::*"
-// @harness sym="6 stream bytes (packet of 2..6 bytes), chunking, per read pending/data/EOF/error, drop or re-poll, live flag" bounds="6-byte receive buffer, script of 6 bytes then EOF/error, <= 9 polls"
-absout_harness!(c15_read_packet_commits_and_latches, 11, { read_body(6, true, false) });
+// The commit/latch behaviour of read_packet for packets that fit, and the await-point invariant
+// "everything delivered so far is committed when the next read starts" are decided in the
+// projection (p_drive.rs: c15_read_packet_commits_and_latches): as coroutines the fill loop did not
+// finish (900 s, 7-13 GB); only the oversize case does.
 
-// @harness props=C14,C11,C08 tier=quick layer=L3c unwind=11
+// @harness props=C14,C11,C08 tier=thorough layer=L3c unwind=8 heavy=1
 // @harness funcs="Connection::read_packet, fill_packet_reader with a declared length above the receive buffer"
-// @harness sym="stream bytes with remaining length 5..127, chunking" bounds="6-byte receive buffer"
-absout_harness!(c14_oversize_inbound_latches, 11, { read_body(6, false, false) });
+// @harness sym="stream bytes with remaining length 3..127, chunking" bounds="4-byte receive buffer"
+absout_harness!(c14_oversize_inbound_latches, 8, { read_body(false, false) });
